@@ -27,6 +27,7 @@ size_t verif_arr_max;                /* ghost: max_elements of the timers array 
 int verif_arr_token;
 int verif_grow_may_fail;
 unsigned verif_index_calls;
+unsigned verif_grow_failures;        /* ghost: number of refused qb_array_grow calls (harness zeroes it) */
 static void verif_other_slot_havoc(int32_t idx);   /* unit hook: draw the content of another slot */
 
 static int32_t verif_qb_array_index(qb_array_t *a, int32_t idx, void **element_out)
@@ -55,6 +56,7 @@ static int32_t verif_qb_array_grow(qb_array_t *a, size_t max_elements)
 		return -EINVAL;
 	}
 	if (nd_grow_fails && verif_grow_may_fail) {
+		verif_grow_failures++;
 		return -ENOMEM;
 	}
 	if (max_elements > verif_arr_max) {
@@ -67,6 +69,9 @@ static long verif_random(void)
 {
 	VERIF_ND(int32_t, nd_random);
 	ASSUME(nd_random >= 0);   /* random() returns a value in [0, 2^31) */
+#ifdef TS_RANDOM_ASSUME
+	ASSUME(TS_RANDOM_ASSUME(nd_random));   /* unit-declared assumption about the generator (listed in the unit's stubs) */
+#endif
 	return nd_random;
 }
 #define qb_array_index verif_qb_array_index
